@@ -18,6 +18,7 @@ import (
 	"github.com/ysugimoto/falco/v2/linter"
 	lcontext "github.com/ysugimoto/falco/v2/linter/context"
 	"github.com/ysugimoto/falco/v2/parser"
+	"github.com/ysugimoto/falco/v2/snippet"
 )
 
 // ---------------------------------------------------------------------------
@@ -39,6 +40,7 @@ type lintProgram struct {
 	modules      map[string]string
 	desc         string
 	funcs        []string
+	snippets     map[string]string // Fastly managed snippets reachable through include "snippet::NAME"
 	dupLifecycle bool
 	dupSub       bool // two declarations of the same user subroutine: which one wins is order-dependent by definition
 }
@@ -269,7 +271,21 @@ func genProgram(c *worker.Ctx) *lintProgram {
 		}
 		return ""
 	}
-	switch c.T.Draw(11) {
+	switch c.T.Draw(14) {
+	case 11:
+		// Fastly managed snippets: one that includes itself from a subroutine body
+		p.desc = "include:snippet-self"
+		p.snippets = map[string]string{"s0": "include \"snippet::s0\";\nset req.http.X-A = \"s\";\n"}
+		add("sub", "sub inc_user {\n  include \"snippet::s0\";\n}\n")
+	case 12:
+		p.desc = "include:snippet-cycle2"
+		p.snippets = map[string]string{"s0": "if (req.http.X-A) {\n  include \"snippet::s1\";\n}\n", "s1": "include \"snippet::s0\";\n"}
+		add("sub", "sub inc_user {\n  include \"snippet::s0\";\n}\n")
+	case 13:
+		p.desc = "include:snippet-and-module"
+		p.snippets = map[string]string{"s0": "include \"m0" + ext() + "\";\n"}
+		p.modules["m0"] = "include \"snippet::s0\";\nset req.http.X-A = \"m\";\n"
+		add("sub", "sub inc_user {\n  include \"snippet::s0\";\n  include \"snippet::nosuch\";\n}\n")
 	case 8:
 		// the include sits inside a nested block of the module it names
 		p.desc = "include:nested-self"
@@ -364,6 +380,9 @@ func innermostFalcoFrame(skip int) string {
 	return "?"
 }
 
+// managedSnippets are the Fastly managed snippets of the case being run.
+var managedSnippets map[string]string
+
 func lintOnce(src string, modules map[string]string, order simmap.Order) (out lintOutcome) {
 	store := simfs.New(src, modules)
 	store.Budget = 300
@@ -388,7 +407,15 @@ func lintOnce(src string, modules map[string]string, order simmap.Order) (out li
 		simmap.Install(order)
 	}
 	l := linter.New(&config.LinterConfig{})
-	l.Lint(vcl, lcontext.New(lcontext.WithResolver(store)))
+	opts := []lcontext.Option{lcontext.WithResolver(store)}
+	if len(managedSnippets) > 0 {
+		inc := snippet.IncludeSnippets{}
+		for name, data := range managedSnippets {
+			inc[name] = snippet.Item{Name: name, Data: data}
+		}
+		opts = append(opts, lcontext.WithSnippets(&snippet.Snippets{IncludeSnippets: inc, ScopedSnippets: snippet.ScopedSnippets{}, LoggingEndpoints: snippet.LoggingEndpoints{}}))
+	}
+	l.Lint(vcl, lcontext.New(opts...))
 	if l.FatalError != nil {
 		out.fatal = "fatal: " + l.FatalError.Error.Error()
 	}
@@ -513,6 +540,8 @@ func runC11(c *worker.Ctx) {
 		return
 	}
 	p := genProgram(c)
+	managedSnippets = p.snippets
+	defer func() { managedSnippets = nil }()
 	identity := make([]int, len(p.decls))
 	for i := range identity {
 		identity[i] = i
